@@ -151,6 +151,9 @@ type dirSpec struct {
 	templated                 bool // task dir given as {{.Root}}/...
 	stage                     bool
 	cdFirst                   bool // an earlier command of the task changes directory: the next command starts afresh
+	// viaLink: every dir is written <root>/link/../<name> where link is a symbolic link to <root>/deep/inner: the
+	// directory this names is <root>/deep/<name> (what the kernel resolves), not the <root>/<name> next to the link
+	viaLink bool
 }
 
 func (s dirSpec) line() string {
@@ -170,10 +173,21 @@ func dirCase(col *Collector, s dirSpec) {
 		os.MkdirAll(filepath.Join(root, d), 0755)
 	}
 	trace := filepath.Join(root, "trace")
+	written := func(name string) string { return filepath.Join(root, name) }
+	physical := written
+	if s.viaLink {
+		os.MkdirAll(filepath.Join(root, "deep", "inner"), 0755)
+		for _, d := range []string{"sd", "td", "cd"} {
+			os.MkdirAll(filepath.Join(root, "deep", d), 0755)
+		}
+		os.Symlink(filepath.Join("deep", "inner"), filepath.Join(root, "link"))
+		written = func(name string) string { return root + "/link/../" + name }
+		physical = func(name string) string { return filepath.Join(root, "deep", name) }
+	}
 	var b strings.Builder
 	b.WriteString("contexts:\n  cx:\n")
 	if s.ctxDir {
-		fmt.Fprintf(&b, "    dir: %s\n", filepath.Join(root, "cd"))
+		fmt.Fprintf(&b, "    dir: %s\n", written("cd"))
 	} else {
 		b.WriteString("    env: {X: y}\n")
 	}
@@ -184,10 +198,12 @@ func dirCase(col *Collector, s dirSpec) {
 		b.WriteString("tasks:\n  t:\n")
 	}
 	if s.taskDir {
-		if s.templated {
+		if s.templated && s.viaLink {
+			b.WriteString("    dir: \"{{.Root}}/link/../td\"\n")
+		} else if s.templated {
 			b.WriteString("    dir: \"{{.Root}}/td\"\n")
 		} else {
-			fmt.Fprintf(&b, "    dir: %s\n", filepath.Join(root, "td"))
+			fmt.Fprintf(&b, "    dir: %s\n", written("td"))
 		}
 	}
 	fmt.Fprintf(&b, "    condition: 'echo cond=$(/bin/pwd) >> %s'\n", trace)
@@ -200,7 +216,7 @@ func dirCase(col *Collector, s dirSpec) {
 	fmt.Fprintf(&b, "    after: ['echo after=$(/bin/pwd) >> %s']\n", trace)
 	b.WriteString("pipelines:\n  p:\n    - task: t\n")
 	if s.stageDir {
-		fmt.Fprintf(&b, "      dir: %s\n", filepath.Join(root, "sd"))
+		fmt.Fprintf(&b, "      dir: %s\n", written("sd"))
 	}
 	os.WriteFile(filepath.Join(root, "tasks.yaml"), []byte(b.String()), 0644)
 	start := root
@@ -215,14 +231,14 @@ func dirCase(col *Collector, s dirSpec) {
 	want := start
 	switch {
 	case s.stage && s.stageDir:
-		want = filepath.Join(root, "sd")
+		want = physical("sd")
 	case s.taskDir:
-		want = filepath.Join(root, "td")
+		want = physical("td")
 	case s.ctxDir:
-		want = filepath.Join(root, "cd")
+		want = physical("cd")
 	}
 	cs := Case{Line: s.line(), Tags: []string{"dir", fmt.Sprintf("fromSub=%v", s.fromSub), fmt.Sprintf("stage=%v", s.stage)}}
-	cs.Replay = fmt.Sprintf("%s fromSub=%v templated=%v stage=%v cdFirst=%v", s.line(), s.fromSub, s.templated, s.stage, s.cdFirst)
+	cs.Replay = fmt.Sprintf("%s fromSub=%v templated=%v stage=%v cdFirst=%v dirs-written-through-a-symlink-and-dotdot=%v", s.line(), s.fromSub, s.templated, s.stage, s.cdFirst, s.viaLink)
 	cs.NonTrivial = true
 	got := map[string]string{}
 	for _, l := range readTrace(trace) {
@@ -240,6 +256,12 @@ func dirCase(col *Collector, s dirSpec) {
 		}
 		if r == "." {
 			return "start"
+		}
+		if s.viaLink && strings.HasPrefix(r, "deep/") {
+			return strings.TrimPrefix(r, "deep/")
+		}
+		if s.viaLink && (r == "sd" || r == "td" || r == "cd") {
+			return "beside-the-link/" + r
 		}
 		if r == "sub" && s.fromSub {
 			return "start"
@@ -438,6 +460,12 @@ func runC09(col *Collector, tier string, seed int64) {
 			for _, stage := range []bool{false, true} {
 				dirs = append(dirs, dirSpec{stageDir: m&1 != 0, taskDir: m&2 != 0, ctxDir: m&4 != 0, fromSub: sub, stage: stage, templated: rng.Intn(2) == 0, cdFirst: (m+len(dirs))%2 == 0})
 			}
+		}
+	}
+	// the same with every dir written through a symbolic link followed by ".."
+	for m := 1; m < 8; m++ {
+		for _, stage := range []bool{false, true} {
+			dirs = append(dirs, dirSpec{stageDir: m&1 != 0, taskDir: m&2 != 0, ctxDir: m&4 != 0, stage: stage, templated: m%2 == 0, cdFirst: m%3 == 0, viaLink: true, fromSub: m%2 == 1 && stage})
 		}
 	}
 	parallel(len(envs)+len(dirs), 16, func(i int) {
